@@ -79,6 +79,7 @@ type reloadEnv struct {
 	healthPort int
 	remote     []int
 	vports     []int
+	racedLogin bool // a reload was applied before the client had a session
 }
 
 func (env *reloadEnv) toml(s cfgSet) string {
@@ -649,6 +650,18 @@ func reloadCase(c *h.Case) {
 				run.Inconclusive("reload: cannot write configuration")
 				return
 			}
+			if !env.racedLogin {
+				hasSession := false
+				for _, n := range g.pnames {
+					if _, ok := svc.StatusExporter().GetProxyStatus(n); ok {
+						hasSession = true
+					}
+				}
+				if !hasSession && len(prev.P) > 0 {
+					env.racedLogin = true
+					c.Data["reload_applied_before_first_login_completed"] = i
+				}
+			}
 			c.Ev("reload", "step", i, "mode", st.Mode, "ops", st.Ops)
 			if env.adminPort == 0 {
 				st.Mode = "api"
@@ -738,6 +751,20 @@ const convergeGrace = 20 * time.Second // >= 3x every timer involved (1 s health
 
 func settleAndJudge(c *h.Case, env *reloadEnv, g *histGen, svc *client.Service, s cfgSet, targetOpen bool, tracks, vtracks map[string]*nameTrack, stepIdx int) bool {
 	pfx := env.pfx + "p"
+	// A reload that was applied before the client's first login had completed and never takes effect shows
+	// up as a plain convergence failure here: it gets the key of that defect.
+	vio := func(key, format string, args ...any) {
+		if env.racedLogin {
+			switch key {
+			case "not-converged-stale-proxy-registered", "not-converged-configured-proxy-missing", "registered-with-stale-configuration",
+				"configured-visitor-not-listening", "removed-visitor-still-listening", "configured-visitor-carries-no-traffic",
+				"status-api-lists-other-than-configured", "remote-port-of-removed-proxy-still-listening", "registered-proxy-carries-no-traffic-to-configured-backend":
+				c.Violation("reload-during-login-lost", "a reload was applied while the client's first login was completing; "+format+" [observed as "+key+"]", args...)
+				return
+			}
+		}
+		c.Violation(key, format, args...)
+	}
 	want := expectedLive(s, targetOpen)
 	var live map[string]bool
 	wantRemote := map[int]bool{}
@@ -766,7 +793,7 @@ func settleAndJudge(c *h.Case, env *reloadEnv, g *histGen, svc *client.Service, 
 	c.Ev("settle", "step", stepIdx, "want", setKeys(want), "live", setKeys(live))
 	if !conv {
 		if strayPort != 0 && reflect.DeepEqual(setKeys(live), setKeys(want)) {
-			c.Violation("remote-port-of-removed-proxy-still-listening", "step %d: %v after the reload port %d belongs to no configured-and-healthy proxy but is still listening (server table %v)", stepIdx, convergeGrace, strayPort, setKeys(live))
+			vio("remote-port-of-removed-proxy-still-listening", "step %d: %v after the reload port %d belongs to no configured-and-healthy proxy but is still listening (server table %v)", stepIdx, convergeGrace, strayPort, setKeys(live))
 			return false
 		}
 		for n := range live {
@@ -775,14 +802,14 @@ func settleAndJudge(c *h.Case, env *reloadEnv, g *histGen, svc *client.Service, 
 				if len(s.pByName(n)) > 0 {
 					why = "is configured with a health check whose target refuses connections"
 				}
-				c.Violation("not-converged-stale-proxy-registered", "step %d: %v after the reload the server still holds %s, which %s (server %v, configured-and-healthy %v)", stepIdx, convergeGrace, n, why, setKeys(live), setKeys(want))
+				vio("not-converged-stale-proxy-registered", "step %d: %v after the reload the server still holds %s, which %s (server %v, configured-and-healthy %v)", stepIdx, convergeGrace, n, why, setKeys(live), setKeys(want))
 				return false
 			}
 		}
 		for n := range want {
 			if !live[n] {
 				st, _ := svc.StatusExporter().GetProxyStatus(n)
-				c.Violation("not-converged-configured-proxy-missing", "step %d: %v after the reload %s is configured (and healthy) but not registered at the server (server %v); client status %+v", stepIdx, convergeGrace, n, setKeys(live), st)
+				vio("not-converged-configured-proxy-missing", "step %d: %v after the reload %s is configured (and healthy) but not registered at the server (server %v); client status %+v", stepIdx, convergeGrace, n, setKeys(live), st)
 				return false
 			}
 		}
@@ -801,77 +828,97 @@ func settleAndJudge(c *h.Case, env *reloadEnv, g *histGen, svc *client.Service, 
 		for n := range want {
 			st, ok := svc.StatusExporter().GetProxyStatus(n)
 			if !ok || st.Phase != "running" {
-				c.Violation("status-not-running-for-registered-proxy", "step %d: %s is registered at the server but the status API reports %+v (found %v)", stepIdx, n, st, ok)
+				vio("status-not-running-for-registered-proxy", "step %d: %s is registered at the server but the status API reports %+v (found %v)", stepIdx, n, st, ok)
 				return false
 			}
 		}
 	}
-	listed, err := map[string]string{}, error(nil)
-	if env.adminPort > 0 {
-		listed, err = apiStatusNames(env.adminPort)
-	} else {
+	cfgNames := map[string]bool{}
+	for _, e := range s.P {
+		cfgNames[e.Name] = true
+	}
+	readStatus := func() (map[string]string, error) {
+		if env.adminPort > 0 {
+			return apiStatusNames(env.adminPort)
+		}
+		listed := map[string]string{}
 		for _, n := range g.pnames {
 			if st, ok := svc.StatusExporter().GetProxyStatus(n); ok {
 				listed[n] = st.Phase
 			}
 		}
+		return listed, nil
 	}
-	if err != nil {
-		run.Inconclusive("reload: /api/status unreadable")
-	} else {
-		cfgNames := map[string]bool{}
-		for _, e := range s.P {
-			cfgNames[e.Name] = true
+	// a reply may still be on its way on a loaded machine: the status ledger is polled like the server's
+	var badKey, badMsg string
+	okListed := h.Eventually(convergeGrace, func() bool {
+		badKey, badMsg = "", ""
+		listed, err := readStatus()
+		if err != nil {
+			badKey = "-"
+			return false
 		}
 		if !reflect.DeepEqual(setKeys(cfgNames), setKeys(listedNames(listed))) {
-			c.Violation("status-api-lists-other-than-configured", "step %d: the status API lists %v, configured %v", stepIdx, setKeys(listedNames(listed)), setKeys(cfgNames))
+			badKey, badMsg = "status-api-lists-other-than-configured", fmt.Sprintf("step %d: the status API lists %v, configured %v", stepIdx, setKeys(listedNames(listed)), setKeys(cfgNames))
 			return false
 		}
 		for n, ph := range listed {
 			if want[n] && ph != "running" {
-				c.Violation("status-not-running-for-registered-proxy", "step %d: /api/status reports %q for %s, which is registered at the server", stepIdx, ph, n)
+				badKey, badMsg = "status-not-running-for-registered-proxy", fmt.Sprintf("step %d: the status API reports %q for %s, which is registered at the server", stepIdx, ph, n)
 				return false
 			}
 			if !want[n] && ph != "check failed" && ph != "new" {
-				c.Violation("status-of-unhealthy-proxy", "step %d: /api/status reports %q for %s whose health target refuses connections", stepIdx, ph, n)
+				badKey, badMsg = "status-of-unhealthy-proxy", fmt.Sprintf("step %d: the status API reports %q for %s whose health target refuses connections", stepIdx, ph, n)
 				return false
 			}
-			// the reported status and the last recorded transition agree at quiescence
-			agree := h.Eventually(3*time.Second, func() bool {
-				st, ok := svc.StatusExporter().GetProxyStatus(n)
-				lp := lastPhase(n)
-				return ok && (st.Phase == lp || ((lp == "" || lp == "closed") && st.Phase == "new"))
-			})
-			if !agree {
-				st, _ := svc.StatusExporter().GetProxyStatus(n)
-				c.Violation("status-differs-from-last-transition", "step %d: status of %s is %+v, last recorded transition went to %q", stepIdx, n, st, lastPhase(n))
+			st, ok := svc.StatusExporter().GetProxyStatus(n)
+			lp := lastPhase(n)
+			if !(ok && (st.Phase == lp || ((lp == "" || lp == "closed") && st.Phase == "new"))) {
+				badKey, badMsg = "status-differs-from-last-transition", fmt.Sprintf("step %d: status of %s is %+v, last recorded transition went to %q", stepIdx, n, st, lp)
 				return false
 			}
+		}
+		return true
+	})
+	if !okListed {
+		if badKey == "-" {
+			run.Inconclusive("reload: /api/status unreadable")
+		} else {
+			vio(badKey, "%s", badMsg)
+			return false
 		}
 	}
 
 	// registration content, traffic, operating system
 	for n := range want {
 		entries := s.pByName(n)
-		evs := regEvents(n)
+		// (polled: the last message of a burst may still be on its way to the server)
 		var last *regEvent
-		for i := range evs {
-			if evs[i].Op == "NewProxy" {
-				last = &evs[i]
+		match := -1
+		h.Eventually(convergeGrace, func() bool {
+			evs := regEvents(n)
+			last, match = nil, -1
+			for i := range evs {
+				if evs[i].Op == "NewProxy" {
+					last = &evs[i]
+				}
 			}
-		}
+			if last == nil {
+				return false
+			}
+			for i, e := range entries {
+				if last.Type == e.Type && last.Enc == e.Enc && last.Comp == e.Comp && last.Metas["m"] == e.Meta && (e.Type != "tcp" || last.RemotePort == e.RemotePort) {
+					match = i
+				}
+			}
+			return match >= 0
+		})
 		if last == nil {
-			c.Violation("registered-without-registration-message", "step %d: %s is in the server's table but the plugin saw no NewProxy for it", stepIdx, n)
+			vio("registered-without-registration-message", "step %d: %s is in the server's table but the plugin saw no NewProxy for it", stepIdx, n)
 			return false
 		}
-		match := -1
-		for i, e := range entries {
-			if last.Type == e.Type && last.Enc == e.Enc && last.Comp == e.Comp && last.Metas["m"] == e.Meta && (e.Type != "tcp" || last.RemotePort == e.RemotePort) {
-				match = i
-			}
-		}
 		if match < 0 {
-			c.Violation("registered-with-stale-configuration", "step %d: %s is registered as %+v, the loaded configuration says %+v", stepIdx, n, *last, entries)
+			vio("registered-with-stale-configuration", "step %d: %v after the reload %s is registered as %+v, the loaded configuration says %+v", stepIdx, convergeGrace, n, *last, entries)
 			return false
 		}
 		run.Count("registrations_content_checked", 1)
@@ -891,7 +938,7 @@ func settleAndJudge(c *h.Case, env *reloadEnv, g *histGen, svc *client.Service, 
 					if t.dupUnchangedReload {
 						key = "unchanged-duplicate-name-entry-restarted"
 					}
-					c.Violation(key, "step %d: the connection through %s opened before the reload(s) is dead (%v) although the entry did not change", stepIdx, n, err)
+					vio(key, "step %d: the connection through %s opened before the reload(s) is dead (%v) although the entry did not change", stepIdx, n, err)
 					return false
 				}
 				run.Count("tunnel_connections_survived_reload", 1)
@@ -900,17 +947,25 @@ func settleAndJudge(c *h.Case, env *reloadEnv, g *histGen, svc *client.Service, 
 					t.conn.Close()
 					t.conn = nil
 				}
-				cn, err := net.DialTimeout("tcp", addr, 5*time.Second)
+				var cn net.Conn
 				var id string
-				if err == nil {
-					id, err = h.AskIdentOn(cn, 10*time.Second)
-				}
-				if err != nil || !okIDs[id] {
+				var err error
+				for deadline := time.Now().Add(convergeGrace); ; { // polled like the tables above
+					cn, err = net.DialTimeout("tcp", addr, 5*time.Second)
+					if err == nil {
+						id, err = h.AskIdentOn(cn, 10*time.Second)
+					}
+					if err == nil && okIDs[id] {
+						break
+					}
 					if cn != nil {
 						cn.Close()
 					}
-					c.Violation("registered-proxy-carries-no-traffic-to-configured-backend", "step %d: %s on %s answered %q / %v, configured backend(s) %v", stepIdx, n, addr, id, err, setKeys(okIDs))
-					return false
+					if time.Now().After(deadline) {
+						vio("registered-proxy-carries-no-traffic-to-configured-backend", "step %d: %v after the reload %s on %s answers %q / %v, configured backend(s) %v", stepIdx, convergeGrace, n, addr, id, err, setKeys(okIDs))
+						return false
+					}
+					time.Sleep(50 * time.Millisecond)
 				}
 				t.conn, t.connGen = cn, t.gens
 				run.Count("tunnel_connections_opened", 1)
@@ -938,7 +993,7 @@ func settleAndJudge(c *h.Case, env *reloadEnv, g *histGen, svc *client.Service, 
 		entries := s.pByName(n)
 		if len(entries) > 0 && entries[0].Health {
 			if t.neverHealthySinceGen && at != t.attemptsAtGenStart {
-				c.Violation("registered-before-first-successful-probe", "step %d: %s has a health check whose target has refused every connection since the entry was added, yet %d NewProxy message(s) reached the server", stepIdx, n, at-t.attemptsAtGenStart)
+				vio("registered-before-first-successful-probe", "step %d: %s has a health check whose target has refused every connection since the entry was added, yet %d NewProxy message(s) reached the server", stepIdx, n, at-t.attemptsAtGenStart)
 				return false
 			}
 			continue
@@ -946,26 +1001,32 @@ func settleAndJudge(c *h.Case, env *reloadEnv, g *histGen, svc *client.Service, 
 		if t.health {
 			continue
 		}
-		if at > t.gens {
+		// legal repetitions (reply later than the reply timeout on a loaded machine, retry after a start
+		// error) are not re-registrations of an unchanged entry: they are discounted through the phase log
+		_, _, resent, retried := sendBreakdown(n)
+		if resent+retried > 0 {
+			run.Count("registrations_repeated_after_timeout_or_error", int64(resent+retried))
+		}
+		if at > t.gens+resent+retried {
 			key := "unchanged-entry-registered-again"
 			what := "did not change"
 			if t.dupUnchangedReload {
 				key = "unchanged-duplicate-name-entry-restarted"
 				what = "is listed more than once and the same list was reloaded unchanged"
 			}
-			c.Violation(key, "step %d: %d NewProxy messages for %s reached the server, but the history started only %d generation(s) of it (the entry %s)", stepIdx, at, n, t.gens, what)
+			vio(key, "step %d: %d NewProxy messages for %s reached the server, but the history started only %d generation(s) of it (%d repetitions after reply timeouts / start errors); the entry %s", stepIdx, at, n, t.gens, resent+retried, what)
 			return false
 		}
 		if at < t.settled {
-			c.Violation("registration-count-below-generations", "step %d: %d NewProxy for %s, %d settled generations", stepIdx, at, n, t.settled)
+			vio("registration-count-below-generations", "step %d: %d NewProxy for %s, %d settled generations", stepIdx, at, n, t.settled)
 			return false
 		}
 		if cl > t.ended {
-			c.Violation("unchanged-entry-closed-at-server", "step %d: the server closed %s %d time(s), the history ended only %d generation(s) of it", stepIdx, n, cl, t.ended)
+			vio("unchanged-entry-closed-at-server", "step %d: the server closed %s %d time(s), the history ended only %d generation(s) of it", stepIdx, n, cl, t.ended)
 			return false
 		}
 		if cl < t.endedSettled {
-			c.Violation("changed-entry-not-closed-at-server", "step %d: %d registered generation(s) of %s were removed or changed, the server closed only %d", stepIdx, t.endedSettled, n, cl)
+			vio("changed-entry-not-closed-at-server", "step %d: %d registered generation(s) of %s were removed or changed, the server closed only %d", stepIdx, t.endedSettled, n, cl)
 			return false
 		}
 		run.Count("registration_counts_judged", 1)
@@ -989,7 +1050,7 @@ func settleAndJudge(c *h.Case, env *reloadEnv, g *histGen, svc *client.Service, 
 	if !okV {
 		for _, p := range env.vports {
 			if _, w := wantV[p]; !w && portAccepts(p) {
-				c.Violation("removed-visitor-still-listening", "step %d: %v after the reload port %d belongs to no configured visitor but still accepts connections", stepIdx, convergeGrace, p)
+				vio("removed-visitor-still-listening", "step %d: %v after the reload port %d belongs to no configured visitor but still accepts connections", stepIdx, convergeGrace, p)
 				return false
 			}
 		}
@@ -1011,7 +1072,7 @@ func settleAndJudge(c *h.Case, env *reloadEnv, g *histGen, svc *client.Service, 
 				if len(vs) > 1 {
 					key = "unchanged-duplicate-name-visitor-restarted"
 				}
-				c.Violation(key, "step %d: visitor %s did not change, but the socket listening on its port %d is another one than before the reload(s) (inode %s -> %s)", stepIdx, n, vs[0].BindPort, t.inode, ino)
+				vio(key, "step %d: visitor %s did not change, but the socket listening on its port %d is another one than before the reload(s) (inode %s -> %s)", stepIdx, n, vs[0].BindPort, t.inode, ino)
 				return false
 			}
 			run.Count("visitor_listeners_unchanged", 1)
@@ -1020,7 +1081,7 @@ func settleAndJudge(c *h.Case, env *reloadEnv, g *histGen, svc *client.Service, 
 				if len(vs) > 1 {
 					key = "unchanged-duplicate-name-visitor-restarted"
 				}
-				c.Violation(key, "step %d: the connection through visitor %s opened before the reload(s) is dead (%v) although the visitor did not change", stepIdx, n, err)
+				vio(key, "step %d: the connection through visitor %s opened before the reload(s) is dead (%v) although the visitor did not change", stepIdx, n, err)
 				return false
 			}
 			run.Count("visitor_connections_survived_reload", 1)
@@ -1044,7 +1105,7 @@ func settleAndJudge(c *h.Case, env *reloadEnv, g *histGen, svc *client.Service, 
 			if err != nil && strings.Contains(err.Error(), "refused") {
 				key = "configured-visitor-not-listening"
 			}
-			c.Violation(key, "step %d: visitor %s on %s answered %q / %v", stepIdx, n, addr, id, err)
+			vio(key, "step %d: visitor %s on %s answered %q / %v", stepIdx, n, addr, id, err)
 			return false
 		}
 		t.conn, t.connGen = cn, t.gens
@@ -1102,7 +1163,7 @@ func listedNames(m map[string]string) map[string]bool {
 }
 
 // staleReplyCase: a real frps whose registration replies are late (the NewProxy plugin operation takes
-// 600 ms). The entry is changed while the reply to its first registration is outstanding, and the port
+// 400 ms). The entry is changed while the reply to its first registration is outstanding, and the port
 // of the new version is taken at that moment, so frps answers: success (old request), error (new
 // request). The error has to be retried after the back-off interval; the port is free by then.
 func staleReplyCase(c *h.Case) {
@@ -1129,7 +1190,7 @@ func staleReplyCase(c *h.Case) {
 		return
 	}
 	defer squat.Close()
-	pluginDelay(pfx, 600*time.Millisecond)
+	pluginDelay(pfx, 400*time.Millisecond)
 	defer pluginDelay(pfx, 0)
 	cfg := func(remote int) string {
 		return fmt.Sprintf(`serverAddr = "127.0.0.1"
@@ -1174,14 +1235,24 @@ remotePort = %d
 	c.Ev("state", "client_status", cli.ProxyPhase(name), "server", setKeys(liveNames(name)))
 	squat.Close()
 	if !h.Eventually(3*tStartErr+10*time.Second, func() bool { return liveNames(name)[name] }) {
+		if _, _, resent, _ := sendBreakdown(name); resent > 0 {
+			run.Inconclusive("reload: reply later than the reply timeout in the stale-reply scenario")
+			return
+		}
 		st, _ := cli.Svc.StatusExporter().GetProxyStatus(name)
 		c.Data["server_events"] = regEvents(name)
 		c.Data["phases"] = phaseHistory(name)
-		c.Violation("start-error-after-stale-reply-abandoned", "real frps, replies 600 ms late: %s was changed (remotePort %d -> %d) while the reply to its first registration was outstanding and port %d was taken at that moment. frps answered success (old request) then an error (new request). %v after the port became free the proxy is still not registered (server: %v) and the client reports status %q err %q: the old reply was taken for the new request and the start error was dropped instead of retried",
+		c.Violation("start-error-after-stale-reply-abandoned", "real frps, replies 400 ms late: %s was changed (remotePort %d -> %d) while the reply to its first registration was outstanding and port %d was taken at that moment. frps answered success (old request) then an error (new request). %v after the port became free the proxy is still not registered (server: %v) and the client reports status %q err %q: the old reply was taken for the new request and the start error was dropped instead of retried",
 			name, blk[0], blk[1], blk[1], 3*tStartErr+10*time.Second, setKeys(liveNames(pfx)), st.Phase, st.Err)
 		return
 	}
 	if err := cli.WaitRunning(10*time.Second, name); err != nil {
+		if _, _, resent, _ := sendBreakdown(name); resent > 0 {
+			// a reply took longer than the reply timeout (loaded machine): the request was repeated and the
+			// scenario is no longer the one under test
+			run.Inconclusive("reload: reply later than the reply timeout in the stale-reply scenario")
+			return
+		}
 		c.Violation("status-not-running-for-registered-proxy", "%s is registered at the server but the status API reports %q", name, cli.ProxyPhase(name))
 		return
 	}
